@@ -146,6 +146,8 @@ def gen_expressions(tier):
         exprs.append(([], [pats[i]]))
     if tier == 'quick':
         exprs = exprs[::6]
+    else:
+        exprs = exprs[::3]      # with <= 2 arguments per message; the full product is hours of CPU
     return exprs
 
 
